@@ -40,6 +40,7 @@ type DialRec struct {
 	By      string // goroutine name
 	OK      bool
 	Timeout time.Duration
+	Step    int // global event number when the dial completed
 }
 
 func (n *Net) AddUpstream(network, addr string, serve func(c net.Conn, e *End, idx int)) *Upstream {
@@ -98,6 +99,7 @@ func (n *Net) Dial(network, addr string, timeout time.Duration) (net.Conn, error
 	fail := func(err error) (net.Conn, error) {
 		s.Lock()
 		rec.Done = s.Elapsed()
+		rec.Step = s.StepLocked()
 		n.Dials = append(n.Dials, rec)
 		s.Unlock()
 		return nil, &net.OpError{Op: "dial", Net: network, Addr: addrOf(bn, addr), Err: err}
@@ -149,6 +151,7 @@ func (n *Net) Dial(network, addr string, timeout time.Duration) (net.Conn, error
 	}
 	rec.OK = true
 	rec.Done = s.Elapsed()
+	rec.Step = s.StepLocked()
 	n.Dials = append(n.Dials, rec)
 	s.Unlock()
 	if u != nil && u.Serve != nil {
